@@ -120,7 +120,8 @@ func w5Gen(rng *rand.Rand, tier string) (*w5Body, simrt.Sched) {
 		b.Actors = append(b.Actors, a)
 	}
 	creds := [][2]string{{"viewer1", "pw1"}, {"viewer2", "pw2"}, {"viewer2", "pw2"}, {"lan", "lanpw"}, {"viewer1", "wrong"}, {"", ""}, {"pub", "pubpw"}}
-	ips := []string{"10.0.0.5", "10.0.0.6", "192.168.7.7", "2001:db8::7"}
+	// (the last one is an IPv6 link-local address: it carries a zone, as the peer address of such a connection does)
+	ips := []string{"10.0.0.5", "10.0.0.6", "192.168.7.7", "2001:db8::7", "fe80::a%eth0"}
 	nv := 1 + rng.Intn(3)
 	var viewers []int
 	for i := 0; i < nv; i++ {
@@ -149,7 +150,7 @@ func w5Gen(rng *rand.Rand, tier string) (*w5Body, simrt.Sched) {
 		hows = append(hows, "cdn", "cdn")
 	}
 	for i := 0; i < na; i++ {
-		a := w5Actor{Kind: "attacker", IP: pick("203.0.113.9", "10.0.0.99", "192.168.7.8", "2001:db8::99", "2001:db9::1"), StartMs: int64(2000 + rng.Intn(5000)),
+		a := w5Actor{Kind: "attacker", IP: pick("203.0.113.9", "10.0.0.99", "192.168.7.8", "2001:db8::99", "2001:db9::1", "fe80::b%eth1"), StartMs: int64(2000 + rng.Intn(5000)),
 			Path: pick("cam1", "cam2")}
 		for k, n := 0, 1+rng.Intn(3); k < n; k++ {
 			a.Ops = append(a.Ops, w5Op{Op: "probe", N: int64(1 + rng.Intn(3)), Ms: []int64{100, 700, 2000}[rng.Intn(3)],
